@@ -283,7 +283,12 @@ func workerBatch(fn CheckFn, id, tier string, opts map[string]string, findings [
 		if (run%50 == 7 || res.Violation != nil) && !NoSelfCheck[id] {
 			r2 := RunOnce(fn, NewReplayTape(res.Tape), tier, opts)
 			sum.Reexec++
-			if r2.Digest != res.Digest {
+			if r2.Digest != res.Digest && res.Violation != nil && r2.Violation != nil {
+				// both executions of the tape violate the property, in different ways: the code
+				// under test is itself nondeterministic here (e.g. ranges over a Go map). That is
+				// reported as the violation it is, not as harness trouble.
+				sum.Flags["violation-under-nondeterminism-of-the-code-under-test"]++
+			} else if r2.Digest != res.Digest {
 				sum.Mismatch++
 				sum.MismatchInfo = fmt.Sprintf("run %d: digest %s vs %s\n%s", run, res.Digest, r2.Digest, firstDiff(res.Trace, r2.Trace))
 				writeJSON(out+".mismatch.json", map[string]any{"run": run, "a": res, "b": r2})
